@@ -39,7 +39,10 @@ def _iter_to_set(ex, x, w, frozen):
             raise SymRaise("TypeError", w)
         if not ex.branch(c.elems_hashable(x.term)):
             raise SymRaise("TypeError", w)
-        return VSet(ex.consume(x.term), frozen=frozen)
+        cont = ex.consume(x.term)
+        # language guarantee: the elements of a set are hashable
+        ex.assume(c.forall(["id"], lambda n: z3.Implies(z3.Select(cont, n), c.hashable(n))))
+        return VSet(cont, frozen=frozen)
     if isinstance(x, (VTuple, VList)) and x.items is not None:
         s = c.EMPTY
         for it in x.items:
@@ -290,7 +293,13 @@ def call_builtin(ex, name, args, kw, star, node):
         return VOpaque("float")
     if name == "random.seed":
         return VVal(c.NONE)
-    if name == "min" or name == "max" or name == "sorted" or name == "sum":
+    if name == "sum":
+        x = args[0]
+        if isinstance(x, VGen):
+            from .comprehend import gen_count
+            return gen_count(ex, x)
+        raise Unsupported("sum(%s)" % type(x).__name__)
+    if name == "min" or name == "max" or name == "sorted":
         raise Unsupported("builtin %s" % name)
     raise Unsupported("builtin %s" % name)
 
@@ -396,6 +405,9 @@ def call_method(ex, obj, name, args, kw, star, node):
         if name == "get":
             k = ex.key_term(args[0], w)
             has, val = obj.get()
+            if ex.pure:
+                dflt = ex.tid(args[1]) if len(args) > 1 else c.NONE
+                return VVal(z3.If(z3.Select(has, k), z3.Select(val, k), dflt))
             if ex.branch(z3.Select(has, k)):
                 return VVal(c.val(z3.Select(val, k)))
             return args[1] if len(args) > 1 else VVal(c.NONE)
